@@ -59,6 +59,11 @@ replay: each history is executed on
             cutoff counts stored points, whatever the k column of the holder says.  The evidence counts the
             retrievals with a cutoff from a non-main group whose k does not start at 0 (cutoff_gets_off_axis).
             Thorough tier: the same histories also on the solved SIM model, whose real step group has k = 2.
+          * names that differ only in LETTER CASE and the way the store was filled (instances MC_Results_case*):
+            the main group holds x and X; Reinsert = holder[name] = holder.pop(name) takes a series out and puts
+            it back unchanged between renderings.  The stored results are a mapping name -> series; the order
+            in which it was filled is not part of them, so the reference holder is filled in sorted name order
+            whatever the real holder's history, and the real text must equal the reference text.
           * a small BaseSolver subclass (the object of test_base_solver.py) for BaseCsv
         after every call a deep snapshot of the three holders, of BaseSolver.VariableList and of
         the BaseSolver's series attributes is taken and compared with the previous one; lists returned
@@ -101,7 +106,7 @@ EXTVAL = 7                                                            # = ExtVal
 NOCUT = -1
 UNKNOWN = -99                                                         # code of a value that is none of the above
 GROUPS = ('main', 'step', 'initial')
-ASK_NAMES = ('t', 'x', 'q', 'a')                                         # names the instances' Asks use
+ASK_NAMES = ('t', 'x', 'q', 'a', 'X')                                         # names the instances' Asks use
 KNOWN = {'main': {'t': [0, 1, 2], 'x': [4, 5, 6]}, 'step': {}, 'initial': {}}      # = MC_InitStore
 BASE = {'x': [1., 1., 1.], 'y': [2., 2., 2.], 't': [0., 1., 2.]}      # = MC_BaseStore
 SOLVED_NAMES = {'t': 't', 'x': 'HH__F'}                               # behaviour name -> series of SIM
@@ -401,8 +406,8 @@ def _serve(req):
         try:
             cls = getattr(importlib.import_module(module), clsname)
             fresh = cls(tsname)
-            for k, v in before.items():
-                fresh[k] = list(v)
+            for k in sorted(before):        # a fixed filling order: the reference depends on the content only
+                fresh[k] = list(before[k])
             text = fresh.GenerateCSVtext(fmt)
             return (True, text) if isinstance(text, str) else (False, '')
         except Exception:
@@ -691,6 +696,14 @@ def execute(beh, kind='known'):
         elif what == 'SetCutoff':
             ev = {'ev': 'SetCutoff', 'c': call['c']}
             m.TimeSeriesCutoff = None if call['c'] == NOCUT else call['c']
+        elif what == 'Reinsert':
+            ev = {'ev': 'Reinsert', 'name': call['name'], 'done': True}
+            try:
+                h = w.holder()
+                real = w.real('main', call['name'])
+                h[real] = h.pop(real)
+            except Exception as e:
+                ev.update(done=False, exc=type(e).__name__)
         elif what == 'SetMaxTime':
             ev = {'ev': 'SetMaxTime', 'c': call['c']}
             m.MaxTime = call['c']
@@ -791,7 +804,7 @@ def signature(clause, at, events):
         if not ev.get('fresh_same', True) or not ev.get('ok', True):
             # what happened since the start that the stored series do not show
             before = [e['ev'] + (':' + e['op'] if e['ev'] == 'MutateHeld' else '') for e in events[1:at - 1]
-                      if e['ev'] in ('GetNames', 'MutateHeld', 'Replace', 'RenderTable', 'Extend')]
+                      if e['ev'] in ('GetNames', 'MutateHeld', 'Replace', 'Reinsert', 'RenderTable', 'Extend')]
             return 'render-differs-from-fresh-holder-with-same-series:after-%s%s' % (
                 '+'.join(sorted(set(before))) or 'nothing', '' if ev.get('ok', True) else ':raises-' + str(ev.get('exc')))
         return 'render-text-differs-for-same-series:%s' % ev.get('fmt')
@@ -821,6 +834,8 @@ def call_text(c):
         return 'SetMaxTime(%s)' % c['c']
     if c['ev'] == 'GetNames':
         return 'GetNames(%s)' % c['grp']
+    if c['ev'] == 'Reinsert':
+        return 'Reinsert(%s)' % c['name']
     if c['ev'] == 'Replace':
         return 'Replace(%s->%s)' % (c['name'], c['op'])
     return c['ev']
@@ -940,11 +955,11 @@ def behaviours_of(rep, cfg, seen, res):
 
 QUICK_CFGS = ['MC_Results_quick.cfg', 'MC_Results_quick2.cfg', 'MC_Results_ragged.cfg', 'MC_Results_miss.cfg',
               'MC_Results_edge.cfg', 'MC_Results_horizon.cfg', 'MC_Results_names.cfg', 'MC_Results_formats.cfg',
-              'MC_Results_kaxis.cfg']
+              'MC_Results_kaxis.cfg', 'MC_Results_case.cfg']
 THOROUGH_CFGS = ['MC_Results_thorough.cfg', 'MC_Results_thorough2.cfg', 'MC_Results_ragged_thorough.cfg',
                  'MC_Results_miss_thorough.cfg', 'MC_Results_miss_thorough2.cfg', 'MC_Results_edge_thorough.cfg',
                  'MC_Results_horizon_thorough.cfg', 'MC_Results_names_thorough.cfg', 'MC_Results_formats_thorough.cfg',
-                 'MC_Results_kaxis_thorough.cfg']
+                 'MC_Results_kaxis_thorough.cfg', 'MC_Results_case_thorough.cfg']
 
 
 def run(rep):
